@@ -75,9 +75,10 @@ Lemma h3_write_headers_go_as_modelled :
   src_h3_writeHeaders = bs "{ w.mutex.Lock() defer w.mutex.Unlock() defer w.encoder.Close() defer w.headerBuf.Reset() if err := w.encodeHeaders(req, gzip, """", actualContentLength(req), dumps); err != nil { return err } b := make([]byte, 0, 128) b = (&headersFrame{Length: uint64(w.headerBuf.Len())}).Append(b) if _, err := wr.Write(b); err != nil { return err } _, err := wr.Write(w.headerBuf.Bytes()) return err }".
 Proof. reflexivity. Qed.
 
-(* re-execution: merged copies are remembered and recognised by slice identity (rmerge_step / unmerge) *)
+(* re-execution: merged copies are remembered and recognised by slice identity (rmerge_step / unmerge);
+   the merge runs on the first attempt of an execution only (rmerge_attempt; fix df72f46) *)
 Lemma resend_go_as_modelled :
-  src_parseRequestHeader = bs "{ if c.Headers == nil { return nil } if r.Headers == nil { r.Headers = make(http.Header) } for k, vs := range c.Headers { if len(r.Headers[k]) == 0 { cp := append([]string(nil), vs...) r.Headers[k] = cp if r.clientMerged.headers == nil { r.clientMerged.headers = make(map[string][]string) } r.clientMerged.headers[k] = cp } } return nil }" /\
+  src_parseRequestHeader = bs "{ if c.Headers == nil || r.RetryAttempt > 0 { return nil } if r.Headers == nil { r.Headers = make(http.Header) } for k, vs := range c.Headers { if len(r.Headers[k]) == 0 { cp := append([]string(nil), vs...) r.Headers[k] = cp if r.clientMerged.headers == nil { r.clientMerged.headers = make(map[string][]string) } r.clientMerged.headers[k] = cp } } return nil }" /\
   src_unmerge_headers = bs "for k, vs := range m.headers { if cur := r.Headers[k]; len(vs) > 0 && len(cur) == len(vs) && &cur[0] == &vs[0] { delete(r.Headers, k) } }".
 Proof. split; reflexivity. Qed.
 
